@@ -29,7 +29,8 @@ def _resp(ctx, cmd, n):
     if cmd in ("READ CAPACITY(10)", "READ CAPACITY(16)"):
         return S("cap", min(n, 32))
     if cmd == "REPORT LUNS":
-        return [0, 0, 0, 8, 0, 0, 0, 0] + S("lun", 8)
+        # LUN LIST LENGTH is the device's to choose (it may announce more LUNs than the buffer holds)
+        return S("lunlen", 4) + [0, 0, 0, 0] + S("lun", 8)
     if cmd == "GET LBA STATUS":
         return [0, 0, 0, 20, 0, 0, 0, 0] + S("lbas", 16)
     if cmd == "READ ELEMENT STATUS":
@@ -301,6 +302,7 @@ def h_transport(ctx, cmd, set_name, transport, given):
     dev.opcodes = K.get_set(set_name)
     s.device = dev
     env.ENV.reset(sc)
+    env.ENV.sgio_return = ctx.int("resid", 16)   # the binding reports an arbitrary residual count
     if transport == "iscsi":
         env.ENV.iscsi_tasks[:] = []
     method = getattr(s, spec["facade"])
